@@ -6,6 +6,8 @@ use super::process::calling_process;
 
 // Infer absolute path to `relative_path`.
 pub fn absolute_path(relative_path: &str, config: &Config) -> Option<PathBuf> {
+    // (the name of the file, not the escaped form in which git prints it inside quotes)
+    let relative_path = &*unescape_git_path(relative_path);
     match (
         &config.cwd_of_delta_process,
         &config.cwd_of_user_shell_process,
@@ -23,6 +25,47 @@ pub fn absolute_path(relative_path: &str, config: &Config) -> Option<PathBuf> {
         _ => None,
     }
     .map(normalize_path)
+}
+
+/// Undo the C-style escapes of a path which git printed in quotes (`\303\244.txt` is `ä.txt`).
+/// A path which git prints without quotes contains no backslash.
+fn unescape_git_path(path: &str) -> std::borrow::Cow<str> {
+    if !path.contains('\\') {
+        return path.into();
+    }
+    let bytes = path.as_bytes();
+    let mut unescaped = Vec::with_capacity(bytes.len());
+    let mut i = 0;
+    while i < bytes.len() {
+        if bytes[i] != b'\\' || i + 1 == bytes.len() {
+            unescaped.push(bytes[i]);
+            i += 1;
+            continue;
+        }
+        let octal: Vec<u8> = bytes[i + 1..]
+            .iter()
+            .take(3)
+            .take_while(|b| (b'0'..=b'7').contains(b))
+            .map(|b| b - b'0')
+            .collect();
+        if octal.len() == 3 && octal[0] <= 3 {
+            unescaped.push((octal[0] << 6) | (octal[1] << 3) | octal[2]);
+            i += 4;
+            continue;
+        }
+        unescaped.push(match bytes[i + 1] {
+            b'a' => 7,
+            b'b' => 8,
+            b't' => b'\t',
+            b'n' => b'\n',
+            b'v' => 11,
+            b'f' => 12,
+            b'r' => b'\r',
+            other => other, // `\"`, `\\`
+        });
+        i += 2;
+    }
+    String::from_utf8_lossy(&unescaped).into_owned().into()
 }
 
 #[allow(clippy::needless_borrows_for_generic_args)] // Lint has known problems, &path != path
